@@ -468,7 +468,22 @@ func runC13Failure(nch int, kind string, victim, before, after, repeat int) erro
 	if backlog {
 		pipes[victim].SetWriteDelay(400 * time.Microsecond)
 	}
+	// never let the victim's backlog approach the queue bound: this scenario is about failures, not about overflow
+	callsAtStart := pipes[victim].WriteCalls()
+	issued := 0
+	flow := func() error {
+		if !pipes[victim].WaitWriteCalls(callsAtStart+issued-30, bound) {
+			return fmt.Errorf("channel %d: its writer has made %d transport calls for %d items submitted since the failures began (within %v)", victim, pipes[victim].WriteCalls()-callsAtStart, issued, bound)
+		}
+		return nil
+	}
 	for r := 0; r < repeat; r++ {
+		if kind == "transport-error" {
+			issued++
+			if err := flow(); err != nil {
+				return err
+			}
+		}
 		switch kind {
 		case "transport-error":
 			pipes[victim].FailNextWrite(injectedWriteError(r + before + after))
@@ -516,7 +531,39 @@ func runC13Failure(nch int, kind string, victim, before, after, repeat int) erro
 		marks[i] = p.NumWrites()
 	}
 	_ = marks
+	if repeat > 3 && kind != "transport-error" {
+		// many items went through the queues in a short time; on a busy machine a writer may be behind. The valid items
+		// that follow must not be lost to a full queue (that would be C13's other clause, not this one): give each
+		// writer the time to catch up by feeding valid items slowly until something comes out or the channel is closed
+		for try := 0; try < 200; try++ {
+			behind := false
+			for i, p := range pipes {
+				closed := false
+				for _, r := range rec.Snapshot() {
+					if c, ok := r.Ev.(*gomavlib.EventChannelClose); ok && isPipeChannel(c.Channel, p) {
+						closed = true
+					}
+				}
+				if !closed && p.NumWrites() == marks[i] {
+					behind = true
+				}
+			}
+			if !behind {
+				break
+			}
+			if err := valid(); err != nil {
+				return fmt.Errorf("valid write refused: %v", err)
+			}
+			time.Sleep(5 * time.Millisecond)
+		}
+	}
 	for k := 0; k < after; k++ {
+		if kind == "transport-error" {
+			issued++
+			if err := flow(); err != nil {
+				return err
+			}
+		}
 		if err := valid(); err != nil {
 			return fmt.Errorf("valid write refused: %v", err)
 		}
